@@ -12,7 +12,7 @@ from .. import astq
 from ..events import run_function
 from ..interp import AV, BASE_TOP, UNK, Out, const, dict_av, exc
 from ..model import AnalysisError
-from ..terms import T, TermRule, is_opaque, term_of, tv
+from ..terms import K, PURE_STR_METHODS, T, TermRule, destruct, is_opaque, norm, subst, subterms, term_of, tv
 
 COL = "urllib3._collections"
 HD = f"{COL}.HTTPHeaderDict"
@@ -23,10 +23,11 @@ MUTATORS = {"append", "extend", "insert", "pop", "remove", "clear", "sort", "rev
 class HDRule(TermRule):
     model_asserts = True
 
-    def __init__(self, sf, self_methods):
+    def __init__(self, sf, self_methods, hd_values=()):
         self.sf = sf
         self.self_methods = self_methods
         self.loops_seen = 0
+        self.hd_values = set(hd_values)   # terms known to denote header dicts (annotated parameters): modelled by the class's own specification
 
     # ---------------------------------------------------------------- helpers
     def ev(self, st, *e):
@@ -193,6 +194,8 @@ class HDRule(TermRule):
         f = node.func
         text = ast.unparse(f)
         args = [term_of(p) for p in pos] + [f"{k}={term_of(v)}" for k, v in sorted(kw.items())]
+        if it.resolve_callee(node, recv) in it.inline:
+            return None  # a private helper (not part of the class's interface): interpreted in place
         if isinstance(f, ast.Attribute) and recv is not None:
             # storage methods
             if recv.sym == "S":
@@ -235,6 +238,8 @@ class HDRule(TermRule):
                 s = st.copy()
                 self.ev(s, "storage-call", f.attr, *args)
                 return [Out("normal", s, tv(T("call:S." + f.attr, *args)))]
+            if recv.sym and recv.sym.startswith("S:") and f.attr in ("values", "keys", "items") and not pos:
+                return [Out("normal", st, tv(T(f.attr, recv.sym), none=False))]  # a read-only view of another instance's storage
             if recv.sym and recv.sym.startswith("S:"):
                 s = st.copy()
                 self.ev(s, "foreign-storage-call", recv.sym, f.attr, *args)
@@ -244,8 +249,19 @@ class HDRule(TermRule):
                 s = st.copy()
                 self.ev(s, f.attr, recv.sym, *args)
                 return [Out("normal", s, const(None))]
+            # a header dict known as such (annotated parameter): getlist of the entry being walked is that entry's value lines
+            if recv.sym in self.hd_values and f.attr == "getlist" and pos:
+                Ex = T("each", T("values", f"S:{recv.sym}"))
+                if term_of(pos[0]) in (T("idx", Ex, "0"), T("lower", T("idx", Ex, "0"))):
+                    return [Out("normal", st, tv(T("slice", Ex, "1", "", ""), none=False))]
+            # copy() is, by its own row (checked under R9), a new instance filled from the receiver
+            if recv.kind == "self" and f.attr == "copy" and not pos and not kw:
+                s = st.copy()
+                self.ev(s, "new")
+                self.ev(s, "call", "new()._copy_from", "self")
+                return [Out("normal", s, tv(T("new"), none=False, truth=True))]
             # methods of self / of another header dict / of a freshly built one: events, not inlined
-            if recv.kind == "self" or (recv.sym and recv.sym.split("(")[0] in ("self.copy", "new", "p:other", "idx", "p:headers", "self._headers", "mc")):
+            if recv.kind == "self" or (recv.sym and recv.sym.split("(")[0] in ("self.copy", "new", "p:other", "idx", "p:headers", "self._headers", "mc") and f.attr not in PURE_STR_METHODS):
                 rname = "self" if recv.kind == "self" else recv.sym
                 s = st.copy()
                 pure = f.attr in ("getlist", "iteritems", "itermerged", "items", "keys", "values", "get", "copy", "__len__", "_has_value_for_header", "__contains__", "__getitem__")
@@ -284,27 +300,83 @@ class HDRule(TermRule):
         return None
 
     # ---------------------------------------------------------------- loops / yields
+    # Canonical generic entry of a storage: E = each(values(S)).  Storage invariant (established by every store the rules accept,
+    # checked by R1/R5/R6/R9): the key of an entry is lower(entry[0]).  Under it, iterating the dict (names), the storage
+    # (keys), its values() or its items() are four views of the same walk, and S[lower(E[0])] is E.
+    def _storage_of(self, itv, st):
+        """(storage term, view) when `itv` iterates a header dict / its storage: view in {names, keys, values, items}"""
+        t = norm(term_of(itv)) if itv.sym else None
+        if itv.kind == "self":
+            return "S", "names"
+        if not t:
+            return None
+        if t == "S" or t.startswith("S:"):
+            return t, "keys"
+        op, a = destruct(t)
+        if op in ("values", "keys", "items") and len(a) == 1 and (a[0] == "S" or a[0].startswith("S:")):
+            return a[0], {"values": "values", "keys": "keys", "items": "items"}[op]
+        if op == "copy" and len(a) == 1:
+            return self._storage_of(tv(a[0]), st)
+        if t in self.hd_values:
+            return f"S:{t}", "names"
+        return None
+
     def for_iter(self, it, st, stmt, itv):
         if (itv.kind == "tuple" and not itv.val) or (itv.kind == "const" and not itv.val):
             return [(st.copy(), False)]  # iterating an empty literal
-        I = term_of(itv)
-        key = ("iterated", I, stmt.lineno)
-        if st.ts.get(key):
+        sv = self._storage_of(itv, st)
+        if sv is not None:
+            S_, view = sv
+            I = T("values", S_)
+            E = T("each", I)
+            name, key = T("idx", E, "0"), T("lower", T("idx", E, "0"))
+            elem = {"names": tv(name, none=False), "keys": tv(key, none=False), "values": tv(E, none=False, truth=True),
+                    "items": AV("tuple", (tv(key, none=False), tv(E, none=False, truth=True)), truth=True, none=False)}[view]
+        else:
+            t = norm(term_of(itv))
+            op, a = destruct(t)
+            if (op == "const" and isinstance(a, (tuple, list, str, bytes, frozenset)) and not a) or (op in ("tuple", "list") and not a):
+                return [(st.copy(), False)]  # iter(()) and the like: nothing to walk
+            if op in ("gen", "listcomp") and len(a) == 2:
+                # iterating a comprehension without filter: the walk over its source, each element mapped
+                inner = tv(a[1])
+                sv2 = self._storage_of(inner, st)
+                I = T("values", sv2[0]) if sv2 else a[1]
+                elt = a[0]
+                if sv2:
+                    E = T("each", I)
+                    rep = {"names": T("idx", E, "0"), "keys": T("lower", T("idx", E, "0")), "values": E}.get(sv2[1])
+                    if rep:
+                        elt = subst(elt, T("each", a[1]), rep)
+                eop, ea = destruct(elt)
+                elem = AV("tuple", tuple(tv(x) for x in ea), truth=True, none=False) if eop == "tuple" else tv(elt)
+                S_, view = (sv2[0], sv2[1]) if sv2 else (None, None)
+            else:
+                I, elem, S_, view = t, None, None, None
+        key_ = ("iterated", I, stmt.lineno)
+        if st.ts.get(key_):
             s = st.copy()
             s.ts["loops"] = tuple(x for x in s.ts.get("loops", ()) if x != I)
             return [(s, False)]
         self.loops_seen += 1
         s = st.copy()
-        s.ts[key] = True
+        s.ts[key_] = True
         s.ts["loops"] = s.ts.get("loops", ()) + (I,)
-        if isinstance(stmt.target, (ast.Tuple, ast.List)):
+        if elem is not None:
+            if isinstance(stmt.target, (ast.Tuple, ast.List)) and elem.kind != "tuple" and any(isinstance(t_, ast.Starred) for t_ in stmt.target.elts):
+                it.assign(s, stmt.target, elem)  # name, *lines = entry
+            else:
+                it.assign(s, stmt.target, elem)
+            if S_ == "S":
+                E = T("each", I)
+                k_ = T("lower", T("idx", E, "0"))
+                s.ts[self.has_key(k_)] = True
+                s.ts[("stored", k_)] = tv(E, none=False, truth=True)
+        elif isinstance(stmt.target, (ast.Tuple, ast.List)) and not any(isinstance(t_, ast.Starred) for t_ in stmt.target.elts):
             n = len(stmt.target.elts)
             it.assign(s, stmt.target, AV("tuple", tuple(tv(f"each{i}({I})", none=False) for i in range(n)), truth=True, none=False))
         else:
             it.assign(s, stmt.target, tv(f"each({I})", none=False))
-        if I == "self":
-            # a name produced by iterating the dict is present in its storage
-            s.ts[self.has_key(T("lower", "each(self)"))] = True
         e = st.copy()
         return [(s, True), (e, False)]
 
@@ -354,17 +426,22 @@ class Row:
         return (self.out, self.ev)
 
 
-def rows_of(ctx, cls, name, sf, params=None):
+MODELLED = ("_copy_from", "_prepare_for_method_change", "_has_value_for_header")  # private, but part of the class's own interface: analysed as rows of their own
+
+
+def rows_of(ctx, cls, name, sf, params=None, hd=()):
     m = ctx.model
     fi = m.method(cls, name)
-    rule = HDRule(sf, set(m.cls(cls).methods))
+    rule = HDRule(sf, set(m.cls(cls).methods), hd_values=hd)
     a = fi.node.args
     p = dict(params or {})
     if a.vararg:
         p.setdefault(a.vararg.arg, tv("p:*args", none=False))
     if a.kwarg:
         p.setdefault(a.kwarg.arg, dict_av({}, True, sym="p:**kwargs"))
-    outs, it = run_function(m, fi, rule, cls, params=p, budget=200000)
+    from ..rows import helper_closure
+    inl = {q for q in set(helper_closure(m, [fi], stop=MODELLED)) - {fi.qual}}
+    outs, it = run_function(m, fi, rule, cls, inline=frozenset(inl), params=p, budget=400000)
     ctx.states += it.budget.steps
     rows, seen = [], set()
     for o in outs:
@@ -492,8 +569,9 @@ def run(ctx):
                 return True, ok, "a new name must store a fresh [name, value] (and only that)"
             comb = r.truth(pc)
             if comb is True:
-                want = ("setidx", e, "-1", T("add", T("add", T("idx", e, "-1"), "', '"), pv))
-                return True, r.ev == (want,), "combine=True must join the value to the LAST value of the entry with ', '"
+                want = ("setidx", e, "-1", norm(T("add", T("add", T("idx", e, "-1"), "', '"), pv)))
+                got = tuple((x[0], x[1], x[2], norm(x[3])) if x[0] == "setidx" and len(x) == 4 else x for x in r.ev)
+                return True, got == (want,), "combine=True must join the value to the LAST value of the entry with ', '"
             if comb is False:
                 return True, r.ev == (("append", e, pv),), "an existing name must get the value appended after its other values (first-seen spelling kept)"
             return True, False, "the existing-name case does not distinguish combine"
@@ -620,8 +698,9 @@ def run(ctx):
     # ------------------------------------------------------------------ __iter__ / iteritems / itermerged
     fi, rows, _ = rows_of(ctx, HD, "__iter__", sf)
     Iv = T("values", "S")
-    want_iter = {(("yield", T("idx", f"each({Iv})", "0"), ("in", Iv)),),
-                 (("yield", T("idx", T("entry", f"each(S)"), "0"), ("in", "S")),)}
+    E_ = T("each", Iv)
+    NAME_, LINES_ = T("idx", E_, "0"), T("slice", E_, "1", "", "")
+    want_iter = {(("yield", NAME_, ("in", Iv)),)}
 
     def p_iter(r):
         if not r.ev:
@@ -630,9 +709,7 @@ def run(ctx):
     check_rows(R8, fi, rows, p_iter, "iteration over names")
 
     fi, rows, _ = rows_of(ctx, HD, "iteritems", sf)
-    ent = T("entry", T("lower", "each(self)"))
-    sl = T("slice", ent, "1", "", "")
-    want = ("yield", T("tuple", T("idx", ent, "0"), f"each({sl})"), ("in", "self", sl))
+    want = ("yield", T("tuple", NAME_, f"each({LINES_})"), ("in", Iv, LINES_))
 
     def p_iteritems(r):
         ys = [e for e in r.ev if e[0] == "yield"]
@@ -642,7 +719,7 @@ def run(ctx):
     check_rows(R8, fi, rows, p_iteritems, "per-line iteration")
 
     fi, rows, _ = rows_of(ctx, HD, "itermerged", sf)
-    want_m = ("yield", T("tuple", T("idx", ent, "0"), T("join", "', '", sl)), ("in", "self"))
+    want_m = ("yield", T("tuple", NAME_, T("join", "', '", LINES_)), ("in", Iv))
 
     def p_itermerged(r):
         ys = [e for e in r.ev if e[0] == "yield"]
@@ -655,7 +732,9 @@ def run(ctx):
     fi, rows, _ = rows_of(ctx, IV, "__iter__", sf)
     check_rows(R8, fi, rows, lambda r: (r.out.startswith("return"), r.out == "return:" + T("self._headers.iteritems"), "the item view must iterate the per-line items"), "item view iteration")
     fi, rows, _ = rows_of(ctx, IV, "__len__", sf)
-    check_rows(R8, fi, rows, lambda r: (r.out.startswith("return"), r.out == "return:" + T("len", T("list", T("self._headers.iteritems"))), "the item view's length is the number of value lines"), "item view length")
+    LENS = {"return:" + T("len", T("list", T("self._headers.iteritems"))), "return:" + T("sum", T("gen", "1", T("self._headers.iteritems"))),
+            "return:" + T("len", T("tuple", T("self._headers.iteritems")))}
+    check_rows(R8, fi, rows, lambda r: (r.out.startswith("return"), r.out in LENS, "the item view's length is the number of value lines"), "item view length")
     fi, rows, _ = rows_of(ctx, IV, "__contains__", sf)
 
     pit = "p:" + fi.params()[0]
@@ -695,15 +774,17 @@ def run(ctx):
     check_rows(R8, fi, rows, p_has_all, "per-line membership", 2)
 
     # ------------------------------------------------------------------ _copy_from / copy / unions / discard / eq
-    fi, rows, _ = rows_of(ctx, HD, "_copy_from", sf)
-    po = "p:" + fi.params()[0]
-    each = f"each({po})"
-    want_c = ("store", T("lower", each), T("list", each, "star(" + T(f"{po}.getlist", each) + ")"), ("in", po))
+    po = "p:" + m.method(HD, "_copy_from").params()[0]
+    fi, rows, _ = rows_of(ctx, HD, "_copy_from", sf, hd=(po,))
+    Io = T("values", f"S:{po}")
+    Eo = T("each", Io)
+    want_c = ("store", T("lower", T("idx", Eo, "0")), T("copy", Eo), ("in", Io))
 
     def p_copyfrom(r):
         if not r.ev:
             return False, True, ""
-        evs = tuple(e for e in r.ev if not (e[0] == "call" and e[1].endswith(".getlist")))
+        evs = tuple(e for e in r.ev if not (e[0] == "call" and e[1].endswith(".getlist")) and e[0] != "foreign-storage-call")
+        evs = tuple((e[0], e[1], norm(e[2])) + tuple(e[3:]) if e[0] == "store" and len(e) >= 3 else e for e in evs)
         return True, evs == (want_c,), "per name of the source a fresh [name, *values] must be stored under the lower-cased name"
     check_rows(R9, fi, rows, p_copyfrom, "_copy_from builds fresh per-name lists")
     no_opaque(R9, fi, rows)
@@ -719,7 +800,7 @@ def run(ctx):
 
     for name, want_ev, want_out in (
         ("__ior__", (("call", "self.extend", "mc(p:other)"),), "return:self"),
-        ("__or__", (("call", "self.copy"), ("call", "self.copy().extend", "mc(p:other)")), "return:self.copy()"),
+        ("__or__", (("new",), ("call", "new()._copy_from", "self"), ("call", "new().extend", "mc(p:other)")), "return:new()"),
         ("__ror__", (("new", "mc(p:other)"), ("call", "new(mc(p:other)).extend", "self")), "return:new(mc(p:other))"),
     ):
         fi, rows, _ = rows_of(ctx, HD, name, sf)
